@@ -152,8 +152,8 @@ Proof.
 Qed.
 
 Lemma cp_mode_dot_h_nocopy h r x mode kd :
-  cp_mode_dot_h Op h r false x mode kd =
-  if operand_okb (deref h r) then
+  cp_mode_dot_h_before Op h r false x mode kd =
+  if guard h r mode then
     match cp_mode_dot Op (operand_w Op (deref h r)) (operand_fs (deref h r)) x mode kd with
     | Err => Err
     | Ok (_, fs') =>
@@ -165,7 +165,7 @@ Lemma cp_mode_dot_h_nocopy h r x mode kd :
     end
   else Err.
 Proof.
-  unfold cp_mode_dot_h, stage2. destruct (operand_okb (deref h r)); [|reflexivity].
+  unfold cp_mode_dot_h_before, stage2. destruct (guard h r mode); [|reflexivity].
   destruct (cp_mode_dot Op _ _ x mode kd) as [[w' fs']|]; [|reflexivity]. cbv zeta.
   destruct (is_contract x kd); reflexivity.
 Qed.
@@ -207,13 +207,13 @@ Theorem cp_mode_dot_h_inplace_value (h : heapF) r x mode kd h' o :
   (forall l, ref_w h r = Some l -> ~ In l (lst h (ref_fs h r))) ->
   (is_contract x kd = true -> forall j, j < length (remove_nth mode (lst h (ref_fs h r))) -> j <> pred mode ->
       nth j (remove_nth mode (lst h (ref_fs h r))) 0 <> nth (pred mode) (remove_nth mode (lst h (ref_fs h r))) 0) ->
-  cp_mode_dot_h Op h r false x mode kd = Ok (h', o) ->
+  cp_mode_dot_h_before Op h r false x mode kd = Ok (h', o) ->
   exists w' fs', cp_mode_dot Op (operand_w Op (deref h r)) (operand_fs (deref h r)) x mode kd = Ok (w', fs') /\
      cpo_fs (read_obj h' o) = fs' /\ cpo_shape (read_obj h' o) = cp_shape fs' /\
      cpo_w (read_obj h' o) = match ref_w h r with Some _ => w' | None => ones Op (cp_rank fs') end.
 Proof.
   intros (Hfl & Hin & Hwl & Hob) Hwn Hu. rewrite cp_mode_dot_h_nocopy.
-  destruct (operand_okb (deref h r)); [|discriminate].
+  destruct (guard h r mode) eqn:Hguard; [|discriminate].
   destruct (cp_mode_dot Op _ _ x mode kd) as [[w' fs']|] eqn:Hpure; [|discriminate]. cbv zeta.
   destruct (deref_w_fs h r) as [Efs Ew]. rewrite Efs in Hpure.
   destruct (cp_mode_dot_ok_facts _ _ _ _ _ _ _ Hpure) as (Hm & Hw' & Hc & Hn).
@@ -247,10 +247,10 @@ Proof. intros H. unfold obj, set_obj. simpl. now rewrite nth_set_nth_same. Qed.
 
 (* copy=False, whatever the aliasing: no array the caller holds is clobbered silently -- it keeps its value or is owned by the result *)
 Theorem cp_mode_dot_h_no_silent_clobber (h : heapF) r x mode kd h' o :
-  wf_ref h r -> cp_mode_dot_h Op h r false x mode kd = Ok (h', o) -> no_silent_clobber h h' o.
+  wf_ref h r -> cp_mode_dot_h_before Op h r false x mode kd = Ok (h', o) -> no_silent_clobber h h' o.
 Proof.
   intros (Hfl & Hin & Hwl & Hob). rewrite cp_mode_dot_h_nocopy.
-  destruct (operand_okb (deref h r)); [|discriminate].
+  destruct (guard h r mode) eqn:Hguard; [|discriminate].
   destruct (cp_mode_dot Op _ _ x mode kd) as [[w' fs']|] eqn:Hpure; [|discriminate]. cbv zeta.
   destruct (deref_w_fs h r) as [Efs _]. rewrite Efs in Hpure.
   destruct (cp_mode_dot_ok_facts _ _ _ _ _ _ _ Hpure) as (Hm & _ & Hc & _).
@@ -293,8 +293,8 @@ Proof.
 Qed.
 
 Lemma cp_mode_dot_h_copy h r x mode kd :
-  cp_mode_dot_h Op h r true x mode kd =
-  if operand_okb (deref h r) then
+  cp_mode_dot_h_before Op h r true x mode kd =
+  if guard h r mode then
     match cp_mode_dot Op (operand_w Op (deref h r)) (operand_fs (deref h r)) x mode kd with
     | Err => Err
     | Ok (_, fs') =>
@@ -304,7 +304,7 @@ Lemma cp_mode_dot_h_copy h r x mode kd :
     end
   else Err.
 Proof.
-  unfold cp_mode_dot_h, stage2. destruct (operand_okb (deref h r)); [|reflexivity].
+  unfold cp_mode_dot_h_before, stage2. destruct (guard h r mode); [|reflexivity].
   destruct (cp_mode_dot Op _ _ x mode kd) as [[w' fs']|]; [|reflexivity]. cbv zeta.
   destruct (copy_list h (ref_fs h r)) as [h1a fl1]. cbn [fst snd].
   destruct (copy_w h1a (ref_w h r)) as [h1 wl1]. cbn [fst snd].
@@ -354,7 +354,7 @@ Qed.
 (* copy=True: nothing the caller holds is touched, the result is a fresh object owning fresh arrays only, and it reads as the
    pure model's answer -- whatever the aliasing in the caller's factor list *)
 Theorem cp_mode_dot_h_copy_fresh (h : heapF) r x mode kd h' o :
-  wf_ref h r -> cp_mode_dot_h Op h r true x mode kd = Ok (h', o) ->
+  wf_ref h r -> cp_mode_dot_h_before Op h r true x mode kd = Ok (h', o) ->
   extends h h' /\ length (h_obj h) <= o /\ (forall l, In l (owned h' o) -> length (h_arr h) <= l) /\
   wf_ref h' (RObject o) /\
   exists w' fs', cp_mode_dot Op (operand_w Op (deref h r)) (operand_fs (deref h r)) x mode kd = Ok (w', fs') /\
@@ -363,7 +363,7 @@ Theorem cp_mode_dot_h_copy_fresh (h : heapF) r x mode kd h' o :
 Proof.
   intros Hwf. pose proof (copies_spec h r Hwf) as Hc0. cbv zeta in Hc0. destruct Hwf as (Hfl & Hin & Hwl & Hob).
   rewrite cp_mode_dot_h_copy.
-  destruct (operand_okb (deref h r)); [|discriminate].
+  destruct (guard h r mode) eqn:Hguard; [|discriminate].
   destruct (cp_mode_dot Op _ _ x mode kd) as [[w' fs']|] eqn:Hpure; [|discriminate]. cbv zeta.
   destruct (deref_w_fs h r) as [Efs Ew]. rewrite Efs in Hpure.
   destruct (cp_mode_dot_ok_facts _ _ _ _ _ _ _ Hpure) as (Hm & Hw' & Hc & Hn).
@@ -436,8 +436,8 @@ Lemma lst_set_lst_same (h : heapF) fl v : fl < length (h_lst h) -> lst (set_lst 
 Proof. intros H. unfold lst, set_lst. simpl. now apply nth_set_nth_same. Qed.
 
 Lemma cp_mode_dot_h_fresh_nocopy h r x mode kd : ref_fs h r < length (h_lst h) ->
-  cp_mode_dot_h_fresh Op h r false x mode kd =
-  if operand_okb (deref h r) then
+  cp_mode_dot_h Op h r false x mode kd =
+  if guard h r mode then
     match cp_mode_dot Op (operand_w Op (deref h r)) (operand_fs (deref h r)) x mode kd with
     | Err => Err
     | Ok (_, fs') =>
@@ -449,7 +449,7 @@ Lemma cp_mode_dot_h_fresh_nocopy h r x mode kd : ref_fs h r < length (h_lst h) -
     end
   else Err.
 Proof.
-  intros Hfl. unfold cp_mode_dot_h_fresh, stage2f, stage2. destruct (operand_okb (deref h r)); [|reflexivity].
+  intros Hfl. unfold cp_mode_dot_h, stage2f, stage2. destruct (guard h r mode); [|reflexivity].
   destruct (cp_mode_dot Op _ _ x mode kd) as [[w' fs']|]; [|reflexivity]. cbv zeta.
   destruct (is_contract x kd); [|reflexivity]. cbn [is_contract]. cbv iota.
   rewrite (lst_set_lst_same h (ref_fs h r) _ Hfl). reflexivity.
@@ -482,14 +482,14 @@ Qed.
 
 (* repaired tree, copy=False: the result reads as the pure model's answer WHATEVER the aliasing, and no array is ever overwritten *)
 Theorem cp_mode_dot_h_fresh_value (h : heapF) r x mode kd h' o :
-  wf_ref h r -> cp_mode_dot_h_fresh Op h r false x mode kd = Ok (h', o) ->
+  wf_ref h r -> cp_mode_dot_h Op h r false x mode kd = Ok (h', o) ->
   (exists a, h_arr h' = h_arr h ++ a) /\
   exists w' fs', cp_mode_dot Op (operand_w Op (deref h r)) (operand_fs (deref h r)) x mode kd = Ok (w', fs') /\
      cpo_fs (read_obj h' o) = fs' /\ cpo_shape (read_obj h' o) = cp_shape fs' /\
      cpo_w (read_obj h' o) = match ref_w h r with Some _ => w' | None => ones Op (cp_rank fs') end.
 Proof.
   intros (Hfl & Hin & Hwl & Hob). rewrite cp_mode_dot_h_fresh_nocopy by assumption.
-  destruct (operand_okb (deref h r)); [|discriminate].
+  destruct (guard h r mode) eqn:Hguard; [|discriminate].
   destruct (cp_mode_dot Op _ _ x mode kd) as [[w' fs']|] eqn:Hpure; [|discriminate]. cbv zeta.
   destruct (deref_w_fs h r) as [Efs Ew]. rewrite Efs in Hpure.
   destruct (cp_mode_dot_ok_facts _ _ _ _ _ _ _ Hpure) as (Hm & Hw' & Hc & Hn).
@@ -537,6 +537,133 @@ Proof.
     subst w'. rewrite Ew, El. reflexivity.
 Qed.
 
+(* the update step of the current tree from ANY base heap: appends arrays only, rewrites one list cell, reads back fs' *)
+Lemma stage2f_spec (h1 : heapF) fl1 x mode kd (fs fs' : list (mat F)) :
+  fl1 < length (h_lst h1) -> (forall l, In l (lst h1 fl1) -> l < length (h_arr h1)) ->
+  read_fs h1 (lst h1 fl1) = fs -> mode < length fs ->
+  (is_contract x kd = true -> pred mode < length (remove_nth mode fs) /\
+      fs' = set_nth (pred mode) (nth (pred mode) fs' []) (remove_nth mode fs)) ->
+  (is_contract x kd = false -> fs' = set_nth mode (nth mode fs' []) fs) ->
+  let h2 := stage2f h1 fl1 x mode kd fs' in
+  read_fs h2 (lst h2 fl1) = fs' /\ (exists a, h_arr h2 = h_arr h1 ++ a) /\
+  (forall l, In l (lst h2 fl1) -> l < length (h_arr h2)) /\ h_obj h2 = h_obj h1 /\
+  h_lst h2 = set_nth fl1 (lst h2 fl1) (h_lst h1) /\
+  (forall l, In l (lst h2 fl1) -> In l (lst h1 fl1) \/ l = length (h_arr h1)).
+Proof.
+  intros Hfl Hin Hrd0 Hm Hc Hn. cbv zeta. subst fs.
+  assert (Hlen : length (lst h1 fl1) = length (read_fs h1 (lst h1 fl1))) by (unfold read_fs; now rewrite map_length).
+  set (hb := if is_contract x kd then set_lst h1 fl1 (remove_nth mode (lst h1 fl1)) else h1).
+  set (xb := if is_contract x kd then OpMat [] else x). set (mb := if is_contract x kd then pred mode else mode).
+  set (kb := if is_contract x kd then false else kd).
+  set (fsb := if is_contract x kd then remove_nth mode (read_fs h1 (lst h1 fl1)) else read_fs h1 (lst h1 fl1)).
+  assert (Eh2 : stage2f h1 fl1 x mode kd fs' = stage2 hb fl1 xb mb kb fs') by (unfold stage2f, hb, xb, mb, kb; destruct (is_contract x kd); reflexivity).
+  assert (Hicb : is_contract xb kb = false) by (unfold xb, kb; destruct (is_contract x kd) eqn:E; [reflexivity|exact E]).
+  assert (Hflb : fl1 < length (h_lst hb)) by (unfold hb; destruct (is_contract x kd); [simpl; now rewrite set_nth_length|assumption]).
+  assert (Harr : h_arr hb = h_arr h1) by (unfold hb; destruct (is_contract x kd); reflexivity).
+  assert (Hobj : h_obj hb = h_obj h1) by (unfold hb; destruct (is_contract x kd); reflexivity).
+  assert (Hlsb : lst hb fl1 = if is_contract x kd then remove_nth mode (lst h1 fl1) else lst h1 fl1).
+  { unfold hb. destruct (is_contract x kd); [now apply lst_set_lst_same|reflexivity]. }
+  assert (Hinb : forall l, In l (lst hb fl1) -> l < length (h_arr hb)).
+  { intros l Hl. rewrite Harr. rewrite Hlsb in Hl. apply Hin. destruct (is_contract x kd); [eapply In_remove_nth; eauto|assumption]. }
+  assert (Hrdb : read_fs hb (lst hb fl1) = fsb).
+  { unfold fsb. rewrite Hlsb. unfold read_fs, arr. rewrite Harr. destruct (is_contract x kd); [apply map_remove_nth|reflexivity]. }
+  assert (Hmb : mb < length fsb).
+  { unfold mb, fsb. destruct (is_contract x kd) eqn:E; [now destruct (Hc eq_refl)|assumption]. }
+  assert (Hfb : fs' = set_nth mb (nth mb fs' []) fsb).
+  { unfold mb, fsb. destruct (is_contract x kd) eqn:E; [now destruct (Hc eq_refl)|now apply Hn]. }
+  rewrite Eh2.
+  destruct (stage2_bound hb fl1 xb mb kb fs' Hflb Hinb) as [Hge Hb].
+  destruct (stage2_lists hb fl1 xb mb kb fs' Hflb) as (HL & _ & _ & HO).
+  split; [apply (stage2_read hb fl1 xb mb kb fsb); auto; rewrite Hicb; discriminate|].
+  split; [unfold stage2; rewrite Hicb; simpl; rewrite Harr; eexists; reflexivity|].
+  split; [exact Hb|]. split; [now rewrite HO|].
+  split.
+  - rewrite HL, Hicb. unfold stage2. rewrite Hicb. simpl. unfold hb. destruct (is_contract x kd); simpl; [now rewrite set_nth_twice|reflexivity].
+  - intros l Hl. rewrite HL, Hicb, Harr in Hl. destruct (In_set_nth _ _ _ _ Hl) as [->|Hl']; [now right|left].
+    rewrite Hlsb in Hl'. destruct (is_contract x kd); [eapply In_remove_nth; eauto|assumption].
+Qed.
+
+Lemma cp_mode_dot_h_copy_unfold h r x mode kd :
+  cp_mode_dot_h Op h r true x mode kd =
+  if guard h r mode then
+    match cp_mode_dot Op (operand_w Op (deref h r)) (operand_fs (deref h r)) x mode kd with
+    | Err => Err
+    | Ok (_, fs') =>
+        let h1a := fst (copy_list h (ref_fs h r)) in let fl1 := snd (copy_list h (ref_fs h r)) in
+        let h1 := fst (copy_w h1a (ref_w h r)) in let wl1 := snd (copy_w h1a (ref_w h r)) in
+        new_obj Op (stage2f h1 fl1 x mode kd fs') wl1 fl1
+    end
+  else Err.
+Proof.
+  unfold cp_mode_dot_h, stage2f, stage2. destruct (guard h r mode); [|reflexivity].
+  destruct (cp_mode_dot Op _ _ x mode kd) as [[w' fs']|]; [|reflexivity]. cbv zeta.
+  destruct (copy_list h (ref_fs h r)) as [h1a fl1] eqn:Ecl. cbn [fst snd].
+  destruct (copy_w h1a (ref_w h r)) as [h1 wl1] eqn:Ecw. cbn [fst snd].
+  assert (Hfl1 : fl1 < length (h_lst h1)).
+  { unfold copy_list, alloc_lst in Ecl. injection Ecl as <- <-. unfold copy_w, alloc_arr in Ecw.
+    destruct (ref_w h r); injection Ecw as <- <-; simpl; rewrite app_length; simpl; lia. }
+  destruct (is_contract x kd); [|destruct r; reflexivity]. cbn [is_contract]. cbv iota.
+  rewrite (lst_set_lst_same h1 fl1 _ Hfl1). destruct r; reflexivity.
+Qed.
+
+(* CURRENT TREE, copy=True: nothing the caller holds is touched, the result is a fresh well-formed object owning fresh arrays only,
+   and it reads as the pure model's answer -- whatever the aliasing in the caller's factor list *)
+Theorem cp_mode_dot_h_copy_value (h : heapF) r x mode kd h' o :
+  wf_ref h r -> cp_mode_dot_h Op h r true x mode kd = Ok (h', o) ->
+  extends h h' /\ length (h_obj h) <= o /\ (forall l, In l (owned h' o) -> length (h_arr h) <= l) /\
+  wf_ref h' (RObject o) /\
+  exists w' fs', cp_mode_dot Op (operand_w Op (deref h r)) (operand_fs (deref h r)) x mode kd = Ok (w', fs') /\
+     cpo_fs (read_obj h' o) = fs' /\ cpo_shape (read_obj h' o) = cp_shape fs' /\
+     cpo_w (read_obj h' o) = match ref_w h r with Some _ => w' | None => ones Op (cp_rank fs') end.
+Proof.
+  intros Hwf. pose proof (copies_spec h r Hwf) as Hc0. cbv zeta in Hc0. destruct Hwf as (Hfl & Hin & Hwl & Hob).
+  rewrite cp_mode_dot_h_copy_unfold.
+  destruct (guard h r mode) eqn:Hguard; [|discriminate].
+  destruct (cp_mode_dot Op _ _ x mode kd) as [[w' fs']|] eqn:Hpure; [|discriminate]. cbv zeta.
+  destruct (deref_w_fs h r) as [Efs Ew]. rewrite Efs in Hpure.
+  destruct (cp_mode_dot_ok_facts _ _ _ _ _ _ _ Hpure) as (Hm & Hw' & Hc & Hn).
+  set (h1a := fst (copy_list h (ref_fs h r))) in *. set (fl1 := snd (copy_list h (ref_fs h r))) in *.
+  set (h1 := fst (copy_w h1a (ref_w h r))) in *. set (wl1 := snd (copy_w h1a (ref_w h r))) in *.
+  set (n0 := length (h_arr h)) in *. set (N := length (lst h (ref_fs h r))) in *.
+  destruct Hc0 as (Efl & EL & EO & (a & Ea & HaN) & Erd & Ewv & Hw1 & Hwn).
+  assert (Hfl1 : fl1 < length (h_lst h1)) by (rewrite EL, app_length, Efl; simpl; lia).
+  assert (Els : lst h1 fl1 = seq n0 N) by (unfold lst; rewrite EL, Efl; apply nth_middle).
+  assert (Hin1 : forall l, In l (lst h1 fl1) -> l < length (h_arr h1)).
+  { intros l Hl. rewrite Els in Hl. apply in_seq in Hl. rewrite Ea, app_length. fold n0. lia. }
+  assert (Hrd1 : read_fs h1 (lst h1 fl1) = read_fs h (lst h (ref_fs h r))) by (now rewrite Els).
+  destruct (stage2f_spec h1 fl1 x mode kd _ fs' Hfl1 Hin1 Hrd1 Hm Hc Hn) as (Hrd & [a2 Ea2] & Hb & HO & HLs & Hfrom).
+  set (h2 := stage2f h1 fl1 x mode kd fs') in *.
+  intros E.
+  destruct (new_obj_read h2 wl1 fl1 h' o E) as (R1 & R2 & R3 & Ro & RL & RO & Rcf & [a3 Ra3] & Rcw).
+  { exact Hb. }
+  { intros l El. destruct (Hw1 l El) as [_ Hl]. rewrite Ea2, app_length. lia. }
+  pose proof (new_obj_cw h2 wl1 fl1 h' o E) as Hcw.
+  assert (Hlst2 : forall l, In l (lst h2 fl1) -> n0 <= l).
+  { intros l Hl. destruct (Hfrom l Hl) as [Hl'| ->]; [rewrite Els in Hl'; apply in_seq in Hl'; lia | rewrite Ea, app_length; fold n0; lia]. }
+  split; [|split; [|split; [|split]]].
+  - unfold extends. split; [|split].
+    + exists (a ++ a2 ++ a3). rewrite Ra3, Ea2, Ea, <- !app_assoc. reflexivity.
+    + rewrite RL, HLs, EL, Efl. rewrite set_nth_app_r by lia. rewrite Nat.sub_diag. simpl. eexists; reflexivity.
+    + rewrite RO, HO, EO. eexists; reflexivity.
+  - rewrite Ro, HO, EO. lia.
+  - intros l [El|Hl].
+    + rewrite Rcw in El. subst l. destruct wl1 as [l1|] eqn:Ew1.
+      * destruct (Hw1 l1 eq_refl) as [-> _]. lia.
+      * rewrite Ea2, Ea, !app_length. fold n0. lia.
+    + rewrite Rcf in Hl. unfold lst in Hl. rewrite RL in Hl. fold (lst h2 fl1) in Hl. now apply Hlst2.
+  - unfold wf_ref. simpl ref_fs. simpl ref_w. rewrite Rcf. split; [|split; [|split]].
+    + rewrite RL, HLs, set_nth_length. exact Hfl1.
+    + intros l Hl. unfold lst in Hl. rewrite RL in Hl. fold (lst h2 fl1) in Hl. specialize (Hb l Hl). rewrite Ra3, app_length. lia.
+    + intros l El. injection El as <-. apply Hcw. intros l El. destruct (Hw1 l El) as [_ Hl]. rewrite Ea2, app_length. lia.
+    + intros o0 Eo. injection Eo as <-. rewrite RO, app_length, Ro. simpl. lia.
+  - exists w', fs'. split; [reflexivity|]. rewrite Hrd in R1, R2, R3. repeat split; auto. rewrite R3.
+    destruct wl1 as [l1|] eqn:Ew1; destruct (ref_w h r) as [l|] eqn:Ewr; simpl in Ewv; try discriminate; auto.
+    destruct (Hw1 l1 eq_refl) as [El1 Hl1].
+    assert (read_vec h2 l1 = read_vec h1 l1) as ->.
+    { unfold read_vec, arr. rewrite Ea2. now rewrite app_nth1. }
+    injection Ewv as ->. subst w'. rewrite Ew. reflexivity.
+Qed.
+
 (* ---------------------------------------------------------------- histories of copy=True calls *)
 Lemma extends_refl (h : heapF) : extends h h.
 Proof. unfold extends. repeat split; exists []; now rewrite app_nil_r. Qed.
@@ -580,7 +707,7 @@ Proof.
   - destruct (nth_error refs k) as [r|] eqn:Ek; [|discriminate].
     destruct (cp_mode_dot_h Op h r true x mode kd) as [[h1 o]|] eqn:E1; [|discriminate].
     assert (Hr : wf_ref h r) by (rewrite Forall_forall in Hwf; apply Hwf; eapply nth_error_In; eauto).
-    destruct (cp_mode_dot_h_copy_fresh h r x mode kd h1 o Hr E1) as (Hext & _ & _ & Hwo & _).
+    destruct (cp_mode_dot_h_copy_value h r x mode kd h1 o Hr E1) as (Hext & _ & _ & Hwo & _).
     assert (Hwf1 : Forall (wf_ref h1) (refs ++ [RObject o])).
     { apply Forall_app. split; [|constructor; [exact Hwo|constructor]].
       rewrite Forall_forall in *. intros r0 Hr0. now apply (wf_ref_extends h h1 r0 Hext), Hwf. }
@@ -592,6 +719,142 @@ Proof.
     rewrite Forall_forall in Hwf. apply Hwf. eapply nth_error_In; eauto.
 Qed.
 End HP.
+
+(* ---------------------------------------------------------------- entry points whose answer is all fresh *)
+Section HPF.
+Context {F : Type} (Op : fops F).
+Local Notation heapF := (heap (F:=F)).
+Lemma cp_obj_eta (a : cp_obj (F:=F)) : a = mk_cpobj (cpo_shape a) (cpo_w a) (cpo_fs a).
+Proof. now destruct a. Qed.
+(* the common last step of cp_normalize / cp_flip_sign / cp_permute_factors / cp_copy: for every heap, nothing existing is touched,
+   the object and everything it owns is fresh, it is a well-formed reference with a consistent cache, and it reads (w', fs') *)
+Theorem fresh_result_spec (h : heapF) w' fs' h' o : fresh_result Op h w' fs' = Ok (h', o) ->
+  extends h h' /\ o = length (h_obj h) /\ (forall l, In l (owned h' o) -> length (h_arr h) <= l) /\
+  wf_ref h' (RObject o) /\ read_obj h' o = mk_cpobj (cp_shape fs') w' fs' /\ cp_validb (Some w') fs' = true.
+Proof.
+  unfold fresh_result, alloc_arr, alloc_arrs, alloc_lst. cbn [fst snd h_arr h_lst h_obj].
+  set (h3 := mk_heap ((h_arr h ++ [[w']]) ++ fs') (h_lst h ++ [seq (length (h_arr h ++ [[w']])) (length fs')]) (h_obj h)).
+  intros E.
+  assert (Els : lst h3 (length (h_lst h)) = seq (length (h_arr h ++ [[w']])) (length fs')) by (unfold lst, h3; simpl; apply nth_middle).
+  assert (Erd : read_fs h3 (lst h3 (length (h_lst h))) = fs').
+  { rewrite Els. unfold read_fs, arr, h3. cbn [h_arr]. rewrite <- (app_nil_r ((h_arr h ++ [[w']]) ++ fs')). apply nth_seq_copy. }
+  assert (Ew : read_vec h3 (length (h_arr h)) = w').
+  { unfold read_vec, arr, h3. cbn [h_arr]. rewrite <- app_assoc. cbn [app]. rewrite nth_middle. reflexivity. }
+  assert (Hb : forall l, In l (lst h3 (length (h_lst h))) -> l < length (h_arr h3)).
+  { intros l Hl. rewrite Els in Hl. apply in_seq in Hl. unfold h3. cbn [h_arr]. rewrite !app_length in *. simpl in *. lia. }
+  assert (Hw : forall l, Some (length (h_arr h)) = Some l -> l < length (h_arr h3)).
+  { intros l El. injection El as <-. unfold h3. cbn [h_arr]. rewrite !app_length. simpl. lia. }
+  pose proof (new_obj_cw Op h3 _ _ h' o E Hw) as Hcw.
+  assert (Hvalid : cp_validb (Some w') fs' = true).
+  { unfold new_obj in E. rewrite Erd in E. cbn [option_map] in E. rewrite Ew in E. destruct (cp_validb (Some w') fs'); [reflexivity|discriminate]. }
+  destruct (new_obj_read Op h3 _ _ h' o E Hb Hw) as (R1 & R2 & R3 & Ro & RL & RO & Rcf & [a3 Ra3] & Rcw).
+  rewrite Erd in R1, R2. rewrite Ew in R3.
+  split; [|split; [|split; [|split; [|split]]]]; auto.
+  - unfold extends. rewrite Ra3, RL, RO. unfold h3. cbn [h_arr h_lst h_obj]. rewrite <- !app_assoc. repeat split; eexists; reflexivity.
+  - intros l [El|Hl].
+    + rewrite Rcw in El. lia.
+    + rewrite Rcf in Hl. unfold lst in Hl. rewrite RL in Hl. fold (lst h3 (length (h_lst h))) in Hl. rewrite Els in Hl.
+      apply in_seq in Hl. rewrite app_length in Hl. lia.
+  - unfold wf_ref. simpl ref_fs. simpl ref_w. rewrite Rcf. split; [|split; [|split]].
+    + rewrite RL. unfold h3. cbn [h_lst]. rewrite app_length. simpl. lia.
+    + intros l Hl. unfold lst in Hl. rewrite RL in Hl. fold (lst h3 (length (h_lst h))) in Hl. specialize (Hb l Hl). rewrite Ra3, app_length. lia.
+    + intros l El. injection El as <-. exact Hcw.
+    + intros o0 Eo. injection Eo as <-. rewrite RO, app_length, Ro. simpl. lia.
+  - rewrite (cp_obj_eta (read_obj h' o)). now rewrite R1, R2, R3.
+Qed.
+(* instances *)
+Theorem cp_flip_sign_h_spec summ (h : heapF) r mode h' o : cp_flip_sign_h Op summ h r mode = Ok (h', o) ->
+  exists w' fs', cp_flip_sign Op summ (operand_w Op (deref h r)) (operand_fs (deref h r)) mode = Ok (w', fs') /\
+    extends h h' /\ o = length (h_obj h) /\ (forall l, In l (owned h' o) -> length (h_arr h) <= l) /\
+    wf_ref h' (RObject o) /\ read_obj h' o = mk_cpobj (cp_shape fs') w' fs'.
+Proof.
+  unfold cp_flip_sign_h. destruct (operand_okb (deref h r)); [|discriminate].
+  destruct (cp_flip_sign Op summ _ _ mode) as [[w' fs']|]; [|discriminate]. intros E.
+  destruct (fresh_result_spec h w' fs' h' o E) as (H1 & H2 & H3 & H4 & H5 & _). exists w', fs'. auto 10.
+Qed.
+Theorem cp_permute_h_spec p (h : heapF) r h' o : cp_permute_h Op p h r = Ok (h', o) ->
+  exists w' fs', cp_permute Op p (operand_w Op (deref h r)) (operand_fs (deref h r)) = Ok (w', fs') /\
+    extends h h' /\ o = length (h_obj h) /\ (forall l, In l (owned h' o) -> length (h_arr h) <= l) /\
+    wf_ref h' (RObject o) /\ read_obj h' o = mk_cpobj (cp_shape fs') w' fs'.
+Proof.
+  unfold cp_permute_h. destruct (cp_permute Op p _ _) as [[w' fs']|]; [|discriminate]. intros E.
+  destruct (fresh_result_spec h w' fs' h' o E) as (H1 & H2 & H3 & H4 & H5 & _). exists w', fs'. auto 10.
+Qed.
+Theorem cp_normalize_h_spec tape (h : heapF) r h' o : cp_normalize_h Op tape h r = Ok (h', o) ->
+  let wf' := cp_normalize Op tape (operand_w Op (deref h r)) (operand_fs (deref h r)) in
+  extends h h' /\ o = length (h_obj h) /\ (forall l, In l (owned h' o) -> length (h_arr h) <= l) /\
+  wf_ref h' (RObject o) /\ read_obj h' o = mk_cpobj (cp_shape (snd wf')) (fst wf') (snd wf').
+Proof.
+  unfold cp_normalize_h. destruct (operand_okb (deref h r)); [|discriminate]. cbv zeta.
+  destruct (cp_normalize Op tape _ _) as [w' fs']. intros E.
+  destruct (fresh_result_spec h w' fs' h' o E) as (H1 & H2 & H3 & H4 & H5 & _). auto 10.
+Qed.
+(* CPTensor.normalize: inplace=True returns the SAME object, which now reads the normalised weights and factors (its shape attribute
+   untouched), every array that existed before keeps its value; inplace=False returns a fresh object and leaves the operand alone *)
+Theorem cp_normalize_method_h_spec tape (h : heapF) o inplace h' o' : o < length (h_obj h) ->
+  cp_normalize_method_h Op tape h o inplace = Ok (h', o') ->
+  let wf' := cp_normalize Op tape (operand_w Op (deref h (RObject o))) (operand_fs (deref h (RObject o))) in
+  (exists a, h_arr h' = h_arr h ++ a) /\ (exists l, h_lst h' = h_lst h ++ l) /\
+  cpo_w (read_obj h' o') = fst wf' /\ cpo_fs (read_obj h' o') = snd wf' /\
+  (inplace = true -> o' = o /\ cpo_shape (read_obj h' o') = c_shape (obj h o)) /\
+  (inplace = false -> length (h_obj h) < o' /\ cpo_shape (read_obj h' o') = cp_shape (snd wf') /\ obj h' o = obj h o).
+Proof.
+  intros Ho. unfold cp_normalize_method_h. destruct (cp_normalize_h Op tape h (RObject o)) as [[h1 o1]|] eqn:E1; [|discriminate].
+  destruct (cp_normalize_h_spec tape h (RObject o) h1 o1 E1) as (([a A] & [l L] & [ob O]) & Eo1 & Hown & Hwf1 & Hrd). cbv zeta in *.
+  set (wf' := cp_normalize Op tape (operand_w Op (deref h (RObject o))) (operand_fs (deref h (RObject o)))) in *.
+  assert (Eobj : obj h1 o = obj h o) by (unfold obj; rewrite O; now apply app_nth1).
+  destruct inplace; intros E.
+  - injection E as <- <-. rewrite read_obj_set_obj by (rewrite O, app_length; lia). cbn [cpo_w cpo_fs cpo_shape c_shape c_w c_fs].
+    split; [exists a; exact A|]. split; [exists l; exact L|].
+    apply (f_equal (@cpo_w F)) in Hrd as Hw. apply (f_equal (@cpo_fs F)) in Hrd as Hf. simpl in Hw, Hf.
+    split; [exact Hw|]. split; [exact Hf|]. split; [intros _; split; [reflexivity|now rewrite Eobj]|discriminate].
+  - destruct Hwf1 as (W1 & W2 & W3 & W4). simpl ref_fs in *. simpl ref_w in *.
+    assert (Hw3 : forall k, Some (c_w (obj h1 o1)) = Some k -> k < length (h_arr h1)) by (intros k Ek; injection Ek as <-; now apply W3).
+    destruct (new_obj_read Op h1 _ _ h' o' E W2 Hw3) as (R1 & R2 & R3 & Ro & RL & RO & Rcf & [a3 Ra3] & Rcw).
+    apply (f_equal (@cpo_w F)) in Hrd as Hw. apply (f_equal (@cpo_fs F)) in Hrd as Hf. simpl in Hw, Hf.
+    split; [exists (a ++ a3); now rewrite Ra3, A, app_assoc|]. split; [exists l; now rewrite RL|].
+    split; [now rewrite R3|]. split; [now rewrite R1|]. split; [discriminate|]. intros _.
+    split; [pose proof (W4 o1 eq_refl) as W5; rewrite O, app_length in W5; rewrite Ro, O, app_length; lia|].
+    split; [now rewrite R2, <- Hf|]. unfold obj at 1. rewrite RO. rewrite app_nth1 by (rewrite O, app_length; lia). exact Eobj.
+Qed.
+End HPF.
+
+(* ---------------------------------------------------------------- the cached shape attribute *)
+Section HPC.
+Context {F : Type} (Op : fops F).
+Local Notation heapF := (heap (F:=F)).
+Lemma cache_consistent_read (h : heapF) o : cache_consistent h o <-> cpo_shape (read_obj h o) = cp_shape (cpo_fs (read_obj h o)).
+Proof. unfold cache_consistent, read_obj. simpl. tauto. Qed.
+(* every object a mode product returns (fresh, or the operand itself with its shape attribute rewritten) has a consistent cache *)
+Theorem cp_mode_dot_h_result_consistent (h : heapF) r copy x mode kd h' o :
+  wf_ref h r -> cp_mode_dot_h Op h r copy x mode kd = Ok (h', o) -> cache_consistent h' o.
+Proof.
+  intros Hwf E. apply cache_consistent_read. destruct copy.
+  - destruct (cp_mode_dot_h_copy_value Op h r x mode kd h' o Hwf E) as (_ & _ & _ & _ & w' & fs' & _ & E1 & E2 & _). now rewrite E1, E2.
+  - destruct (cp_mode_dot_h_fresh_value Op h r x mode kd h' o Hwf E) as (_ & w' & fs' & _ & E1 & E2 & _). now rewrite E1, E2.
+Qed.
+(* on an object whose cache is consistent the cached-shape test never changes the verdict of the pure model *)
+Theorem cache_consistent_guard (h : heapF) o x mode kd w' fs' :
+  cache_consistent h o ->
+  cp_mode_dot Op (operand_w Op (deref h (RObject o))) (operand_fs (deref h (RObject o))) x mode kd = Ok (w', fs') ->
+  guard h (RObject o) mode = true.
+Proof.
+  intros Hc Hp. destruct (cp_mode_dot_ok_facts Op _ _ _ _ _ _ _ Hp) as (Hm & _). simpl in Hm.
+  unfold guard, cache_okb. simpl. rewrite Hc. unfold cp_shape. rewrite map_length.
+  apply andb_true_iff. split; [now apply Nat.ltb_lt|].
+  rewrite (nth_map' _ _ mode [] 0) by assumption. apply Nat.eqb_refl.
+Qed.
+(* item assignment: the object reads the new contents but keeps the OLD shape attribute; the cache stays consistent exactly when
+   the new factors have the old mode sizes *)
+Theorem setitem_factors_read (h : heapF) o fl' h' : o < length (h_obj h) -> setitem_h h o 1 fl' = Ok h' ->
+  read_obj h' o = mk_cpobj (c_shape (obj h o)) (read_vec h (c_w (obj h o))) (read_fs h (lst h fl')) /\
+  (cache_consistent h' o <-> c_shape (obj h o) = cp_shape (read_fs h (lst h fl'))) /\
+  h_arr h' = h_arr h /\ h_lst h' = h_lst h.
+Proof.
+  intros Ho E. simpl in E. injection E as <-. rewrite read_obj_set_obj by assumption. simpl. split; [reflexivity|].
+  split; [|split; reflexivity]. unfold cache_consistent. rewrite obj_set_obj by assumption. simpl. tauto.
+Qed.
+End HPC.
 
 (* ---------------------------------------------------------------- end to end on the heap (ring regime) *)
 Section HPR.
@@ -610,7 +873,23 @@ Theorem cp_mode_dot_h_copy_contract_entry (h : heap (F:=F)) r v k h' o idx' l :
        (fun i => fmul Op (vget Op v i) (cp_entry Op (operand_w Op (deref h r)) (operand_fs (deref h r)) (insert_at k i idx'))).
 Proof.
   intros Hwf Hw E Hlen Hr.
-  destruct (cp_mode_dot_h_copy_fresh Op h r (OpVec v) k false h' o Hwf E) as (_ & _ & _ & _ & w' & fs' & Hp & E1 & E2 & E3).
+  destruct (cp_mode_dot_h_copy_value Op h r (OpVec v) k false h' o Hwf E) as (_ & _ & _ & _ & w' & fs' & Hp & E1 & E2 & E3).
+  rewrite Hw in E3. rewrite E1, E2, E3.
+  destruct (cp_mode_dot_vector_contract Op Rth _ _ _ _ _ _ idx' Hp Hlen Hr) as [Hs He]. split; [now rewrite Hs|exact He].
+Qed.
+(* copy=False on the current tree: the same statement, whatever the aliasing (it FAILED before /repo 93a737c, see the witness below) *)
+Theorem cp_mode_dot_h_inplace_contract_entry (h : heap (F:=F)) r v k h' o idx' l :
+  wf_ref h r -> ref_w h r = Some l ->
+  cp_mode_dot_h Op h r false (OpVec v) k false = Ok (h', o) ->
+  S (length idx') = length (operand_fs (deref h r)) ->
+  length (operand_w Op (deref h r)) <= ncols (nth k (operand_fs (deref h r)) []) ->
+  cpo_shape (read_obj h' o) = remove_nth k (cp_shape (operand_fs (deref h r))) /\
+  cp_entry Op (cpo_w (read_obj h' o)) (cpo_fs (read_obj h' o)) idx' =
+  sumn Op (length (nth k (operand_fs (deref h r)) []))
+       (fun i => fmul Op (vget Op v i) (cp_entry Op (operand_w Op (deref h r)) (operand_fs (deref h r)) (insert_at k i idx'))).
+Proof.
+  intros Hwf Hw E Hlen Hr.
+  destruct (cp_mode_dot_h_fresh_value Op h r (OpVec v) k false h' o Hwf E) as (_ & w' & fs' & Hp & E1 & E2 & E3).
   rewrite Hw in E3. rewrite E1, E2, E3.
   destruct (cp_mode_dot_vector_contract Op Rth _ _ _ _ _ _ idx' Hp Hlen Hr) as [Hs He]. split; [now rewrite Hs|exact He].
 Qed.
@@ -623,7 +902,7 @@ Definition alias_heap : heap (F:=Z) :=
    factors[1] also changes factors[0]; the result no longer represents the mode product (509 instead of 49 in entry [0,0]) *)
 Theorem cp_mode_dot_h_inplace_alias_witness :
   exists h' o w' fs',
-    cp_mode_dot_h Zops alias_heap (RTuple (Some 0) 0) false (OpVec [1; 2]%Z) 2 false = Ok (h', o) /\
+    cp_mode_dot_h_before Zops alias_heap (RTuple (Some 0) 0) false (OpVec [1; 2]%Z) 2 false = Ok (h', o) /\
     cp_mode_dot Zops (operand_w Zops (deref alias_heap (RTuple (Some 0) 0))) (operand_fs (deref alias_heap (RTuple (Some 0) 0)))
                 (OpVec [1; 2]%Z) 2 false = Ok (w', fs') /\
     cp_entry Zops w' fs' [0; 0] = 49%Z /\
